@@ -35,7 +35,9 @@ import (
 	"github.com/taurusgroup/multi-party-sig/internal/zzverif/ref"
 	"github.com/taurusgroup/multi-party-sig/internal/zzverif/sess"
 	"github.com/taurusgroup/multi-party-sig/internal/zzverif/vkit"
+	"github.com/taurusgroup/multi-party-sig/pkg/ecdsa"
 	"github.com/taurusgroup/multi-party-sig/pkg/party"
+	"github.com/taurusgroup/multi-party-sig/protocols/cmp"
 	"github.com/taurusgroup/multi-party-sig/protocols/frost"
 )
 
@@ -396,6 +398,53 @@ func (r *runner) refreshOracle(step int, pre *hist.Facts, retained, nw *hist.Mat
 				}
 				if len(o.Results) > 0 {
 					r.violate("stale-signer-yields-signature", fmt.Sprintf("signers %s, %s on material of epoch %q, the others on %s: %s", names(S), stale, r.ln.names[ei], epochName, holders(o, S, r.ln.pub, msg)))
+				}
+			}
+		}
+	}
+	// 7b. CMP: the same in the ONLINE phase.  The refreshed parties presign; then one signer runs the
+	// online phase on its restored pre-refresh configuration (each choice, each earlier epoch).  The
+	// online rounds contain no proof and no Paillier operation: only the session's binding to the
+	// configuration keeps the retired material out.
+	if sc.Proto == hist.CMP && len(r.ln.epochs) > 0 {
+		S := historySigners(sc, ids)
+		if nm, err := snap.Restore(); err == nil {
+			cfg := map[party.ID]*cmp.Config{}
+			for _, id := range S {
+				cfg[id] = nm.CMP[id]
+			}
+			po := r.run(sess.CMPPresign(cfg, S), step, "presign-new-"+names(S))
+			pre := map[party.ID]*ecdsa.PreSignature{}
+			for _, id := range S {
+				if x, ok := po.Results[id].(*ecdsa.PreSignature); ok {
+					pre[id] = x
+				}
+			}
+			if po.Panic != "" {
+				r.panicked("presign-after-refresh", po.Panic)
+			} else if len(pre) != len(S) {
+				r.violate("sign-after-refresh-fails", fmt.Sprintf("signers %s cannot presign with refreshed material: %s", names(S), hist.Describe(po)))
+			} else {
+				for ei, es := range r.ln.epochs {
+					for _, stale := range S {
+						om, err := es.Restore()
+						if err != nil {
+							continue
+						}
+						c2 := map[party.ID]*cmp.Config{}
+						for _, id := range S {
+							c2[id] = cfg[id]
+						}
+						c2[stale] = om.CMP[stale]
+						o := r.run(sess.CMPPresignOnline(c2, pre, S, msg), step, fmt.Sprintf("online-stale-%s-%s-%d", names(S), stale, ei))
+						r.stats["stale_signer_sessions"]++
+						if o.Panic != "" {
+							r.panicked("sign-with-stale-signer", o.Panic)
+						}
+						if len(o.Results) > 0 {
+							r.violate("stale-signer-yields-signature", fmt.Sprintf("online phase, signers %s, %s on its configuration of epoch %q, the others on %s (presignature made with %s): %s", names(S), stale, r.ln.names[ei], epochName, epochName, holders(o, S, r.ln.pub, msg)))
+						}
+					}
 				}
 			}
 		}
